@@ -133,6 +133,32 @@ def cli_hash_seeds(r, n_inputs, seeds):
     return n_runs
 
 
+PROBE_SCRIPT = r'''
+import sys, json, logging
+logging.disable(logging.CRITICAL)
+from harness.props.pipeline_common import run_pipeline
+from picked_group_fdr import methods
+c = json.loads(sys.argv[1])
+out = run_pipeline(methods.parse_method_toml(c["method"], False), c["pil"], c["keep_all"], c["thr"], c["psm_cut"], c["seed"])
+print(json.dumps(out.get("ok", out.get("raise"))))
+'''
+
+
+def hash_seed_probe(case, seeds=(0, 1, 2, 3, 4, 5, 6, 7)):
+    """the inference function on one input in fresh processes under several PYTHONHASHSEED values: the distinct results"""
+    import json
+    procs = []
+    for hs in seeds:
+        env = dict(os.environ, PYTHONHASHSEED=str(hs))
+        procs.append((hs, subprocess.Popen([sys.executable, "-W", "ignore", "-c", PROBE_SCRIPT, json.dumps(case)], env=env,
+                                           stdout=subprocess.PIPE, stderr=subprocess.DEVNULL, text=True)))
+    res = {}
+    for hs, p in procs:
+        out, _ = p.communicate(timeout=300)
+        res.setdefault(out.strip().splitlines()[-1] if out.strip() else "<no output>", []).append(hs)
+    return res
+
+
 def run(r: core.Runner):
     r.assumptions += [
         "PARTIAL: numpy's MT19937 stream for a fixed seed, networkx's iteration inside minimum_st_node_cut and the interpreter "
@@ -148,6 +174,13 @@ def run(r: core.Runner):
             v = pipeline_property_violation(data["case"], s.impl(data["case"]))
             if v:
                 kind, found_input, what = "property-failure", True, f"{s.name}: {v}"
+            else:
+                # a disagreement with the (hash-seed free) model: is the result of this input reproducible across hash seeds?
+                res = hash_seed_probe(data["case"])
+                if len(res) > 1:
+                    data = dict(data, results_by_hash_seed={k[:400]: v for k, v in res.items()})
+                    kind, found_input, what = "property-failure", True, \
+                        f"{s.name}: the result of this input differs between PYTHONHASHSEED values {sorted(res.values())}"
         orig(kind, data, found_input, what)
     r.violation = violation
     s.methods = None
